@@ -1,0 +1,7 @@
+//go:build !verif
+
+package tree
+
+// VerifYield is a scheduling point used by verification builds (build tag
+// "verif", see yield_verif.go); it does nothing in a normal build.
+func VerifYield() {}
